@@ -3,6 +3,9 @@
 //! Serves C01 (conformance), C02 (metering), C09 (validation/safety), C13 (reload and
 //! interrupts).
 
+#[global_allocator]
+static ALLOC: mc_core::PoolAlloc = mc_core::PoolAlloc;
+
 mod ast;
 mod c09;
 mod check;
@@ -219,27 +222,28 @@ fn spaces(prop: Prop, tier: Tier) -> Vec<Space> {
     let unitf = Shape { ret: None, hosts: false };
     let hosts = Shape { ret: Some(VT::I32), hosts: true };
     let q = tier == Tier::Quick;
+    // cheap spaces first: if the wall-clock cap is hit, only the last (largest) space is partial
     match prop {
         Prop::C01 => vec![
-            Space { kind: AlphabetKind::Core, shape: i32f, max_len: if q { 5 } else { 7 } },
-            Space { kind: AlphabetKind::Wide, shape: i32f, max_len: if q { 4 } else { 5 } },
-            Space { kind: AlphabetKind::Memory, shape: i32f, max_len: if q { 3 } else { 4 } },
-            Space { kind: AlphabetKind::Core, shape: unitf, max_len: if q { 4 } else { 6 } },
-            Space { kind: AlphabetKind::Wide, shape: i64f, max_len: if q { 3 } else { 5 } },
-            Space { kind: AlphabetKind::Hosts, shape: hosts, max_len: if q { 3 } else { 5 } },
+            Space { kind: AlphabetKind::Hosts, shape: hosts, max_len: if q { 4 } else { 6 } },
+            Space { kind: AlphabetKind::Wide, shape: i64f, max_len: if q { 4 } else { 5 } },
+            Space { kind: AlphabetKind::Core, shape: unitf, max_len: if q { 5 } else { 7 } },
+            Space { kind: AlphabetKind::Memory, shape: i32f, max_len: if q { 4 } else { 5 } },
+            Space { kind: AlphabetKind::Wide, shape: i32f, max_len: if q { 5 } else { 6 } },
+            Space { kind: AlphabetKind::Core, shape: i32f, max_len: if q { 6 } else { 8 } },
         ],
         Prop::C02 => vec![
-            Space { kind: AlphabetKind::Core, shape: i32f, max_len: if q { 4 } else { 6 } },
-            Space { kind: AlphabetKind::Wide, shape: i32f, max_len: if q { 3 } else { 5 } },
-            Space { kind: AlphabetKind::Hosts, shape: hosts, max_len: if q { 4 } else { 5 } },
-            Space { kind: AlphabetKind::Memory, shape: i32f, max_len: if q { 3 } else { 4 } },
-            Space { kind: AlphabetKind::Core, shape: unitf, max_len: if q { 3 } else { 5 } },
+            Space { kind: AlphabetKind::Core, shape: unitf, max_len: if q { 5 } else { 7 } },
+            Space { kind: AlphabetKind::Memory, shape: i32f, max_len: if q { 4 } else { 5 } },
+            Space { kind: AlphabetKind::Hosts, shape: hosts, max_len: if q { 5 } else { 6 } },
+            Space { kind: AlphabetKind::Wide, shape: i32f, max_len: if q { 4 } else { 6 } },
+            Space { kind: AlphabetKind::Core, shape: i32f, max_len: if q { 6 } else { 7 } },
         ],
         Prop::C13 => vec![
-            Space { kind: AlphabetKind::Hosts, shape: hosts, max_len: if q { 4 } else { 6 } },
-            Space { kind: AlphabetKind::Core, shape: i32f, max_len: if q { 4 } else { 6 } },
-            Space { kind: AlphabetKind::Wide, shape: i32f, max_len: if q { 3 } else { 4 } },
-            Space { kind: AlphabetKind::Memory, shape: i32f, max_len: if q { 3 } else { 4 } },
+            Space { kind: AlphabetKind::Memory, shape: i32f, max_len: if q { 4 } else { 5 } },
+            Space { kind: AlphabetKind::Wide, shape: i32f, max_len: if q { 5 } else { 6 } },
+            Space { kind: AlphabetKind::Core, shape: i32f, max_len: if q { 6 } else { 7 } },
+            Space { kind: AlphabetKind::Hosts, shape: hosts, max_len: if q { 5 } else { 7 } },
         ],
     }
 }
